@@ -167,13 +167,13 @@ theorem location_lineform_column (files : List Str) (l c : Nat) (hl : l < 214748
 /-! ## (i) the AST and the links -/
 
 /-- The model import (any dump) issues only `astOperand1` / `astOperand2` calls … -/
-theorem import_setters_only {file0 text : Str} {m m2 m3 : Bool} {im : Imported} (h : importDump file0 text m m2 m3 = .ok im) :
+theorem import_setters_only {file0 text : Str} {im : Imported} (h : importDump file0 text = .ok im) :
     im.ops.all AstStore.Op.viaOperands = true :=
   import_ops_viaOperands h
 
 /-- … therefore the AST of every token list it produces satisfies C14's invariant (acyclic, an operand's parent points back, a child is
     listed by its parent, op1 ≠ op2). -/
-theorem import_ast_invariant {file0 text : Str} {m m2 m3 : Bool} {im : Imported} (h : importDump file0 text m m2 m3 = .ok im) :
+theorem import_ast_invariant {file0 text : Str} {im : Imported} (h : importDump file0 text = .ok im) :
     AstStore.Inv im.store :=
   import_store_inv h
 
